@@ -279,11 +279,10 @@ G("g4_ristretto_lengths_identity", "g_ristretto", "ristretto255 keys of length !
 G("g5_p256_sk_decode", "g_nist", "P-256 deserialize_sk: Ok <=> 0 < v < n; re-encodes to the input", "all 2^256 strings", ["ok", "err"], timeout=1800, mem_gb=16)
 G("gs_x25519_pk_serde", "g_serde", "PublicKey<Curve25519> through serde: Ok <=> the native decoder accepts; never identity / small order; re-encodes to the input", "all 2^256 strings", ["ok", "err"])
 G("gs_x25519_sk_serde", "g_serde", "PrivateKey<Curve25519> through serde: Ok <=> the native decoder accepts (clamped, non-zero)", "all 2^256 strings", ["ok", "err"])
-G("gs_ristretto_pk_identity", "g_serde", "ristretto255 identity encoding refused by KeGroup::deserialize_pk, PublicKey::deserialize and the serde path; wrong-length public keys refused", "32 zero bytes (concrete, through the engine); lengths 0..=40 except 32 symbolic", ["reached"], timeout=1800, mem_gb=16, loops=[(r"pow2k|sqn|pow|invert", 300)])
+G("gs_ristretto_pk_identity", "g_serde", "ristretto255 identity encoding refused by KeGroup::deserialize_pk, PublicKey::deserialize and the serde path; wrong-length public keys refused", "32 zero bytes (concrete, through the engine); lengths 0..=40 except 32 symbolic", ["reached"], timeout=2400, mem_gb=24, stretch=True, loops=[(r"pow2k|sqn|pow|invert", 300)])
 G("gs_ristretto_sk_serde", "g_serde", "ristretto255 private keys 0 and l refused through serde, 1 accepted", "3 concrete strings through the engine", ["reached"], timeout=1800, mem_gb=16)
-G("g6_p256_oprf_elem_compact_tag", "g_nist", "RegistrationRequest<P-256>: an OPRF element with SEC1 compact tag 0x05 must not decode to a message that re-encodes differently", "generator x-coordinate with tag 5 (concrete, through the engine)", ["reached"], known_finding="F4-nist-oprf-element-compact-tag", timeout=2400, mem_gb=24, loops=[(r"sqn|pow|invert", 300)])
-G("g6_p256_oprf_elem_other_tags", "g_nist", "RegistrationRequest<P-256>: OPRF element tags 0 / 4 refused, 2 / 3 accepted and canonical", "generator x-coordinate with tags 0,2,3,4 (concrete)", ["ok", "err"], timeout=2400, mem_gb=24, loops=[(r"sqn|pow|invert", 300)])
-G("g7_x25519_dh_vectors", "g_curve25519", "Curve25519 public_key / diffie_hellman on RFC 7748 6.1 and on a peer key outside the prime-order subgroup == X25519 (independent ladder)", "3 concrete computations through the engine (symbolic scalar multiplication is outside reach)", ["rfc vector", "mixed-order peer"], timeout=2400, mem_gb=24, loops=[(r"pow2k|sqn|pow|invert", 300)])
+G("g6_p256_oprf_elem_compact_tag", "g_nist", "RegistrationRequest<P-256>: an OPRF element with SEC1 compact tag 0x05 must not decode to a message that re-encodes differently", "generator x-coordinate with tag 5 (concrete, through the engine)", ["reached"], known_finding="F4-nist-oprf-element-compact-tag", timeout=2400, mem_gb=24, stretch=True, loops=[(r"sqn|pow|invert", 300)])
+G("g6_p256_oprf_elem_other_tags", "g_nist", "RegistrationRequest<P-256>: OPRF element tags 0 / 4 refused, 2 / 3 accepted and canonical", "generator x-coordinate with tags 0,2,3,4 (concrete)", ["ok", "err"], timeout=2400, mem_gb=24, stretch=True, loops=[(r"sqn|pow|invert", 300)])
 G("g5_p256_sk_lengths", "g_nist", "P-256 deserialize_sk refuses every length other than 32 (no zero-padded short keys: a decoded key re-encodes to its input)", "every length 0..=40 except 32; content 0x01.. with a symbolic last byte", ["reached"], timeout=1800, mem_gb=16)
 G("g5_p384_sk_lengths", "g_nist", "P-384 deserialize_sk refuses every length other than 48", "every length 0..=56 except 48; content 0x01.. with a symbolic last byte", ["reached"], timeout=1800, mem_gb=16)
 G("g6_p256_pk_unknown_tags", "g_nist", "P-256 deserialize_pk refuses every SEC1 tag outside {0,2,3,4,5}", "33-byte strings, tag and x symbolic", ["reached"], timeout=1800, mem_gb=16)
@@ -360,7 +359,7 @@ S12 = S12 + ["s12_mac_update_iter_long", "s12_digest_chain_iter_long"]
 
 PROPERTIES["C01"] = dict(
     quick=SELF + ["s2_client_reg_start_pw2", "s3_client_login_start_pw2", "s4_server_reg_start_cred2", "c03_server_finish_exact",
-                  "w1_client_reg_finish_default_ids", "w2_server_login_start_record", "w3e_login_finish_early"],
+                  "w1_client_reg_finish_default_ids", "w2_server_login_start_record", "w3e_login_finish_early", "dr_server_registration"],
     thorough=["lemma_spec_ke_agreement", "w3_client_login_finish_default_ids"] + W3Q + [ "s2_client_reg_start_pw0", "s3_client_login_start_pw0", "s4_server_reg_start_cred0"] + W1[1:] + W2[1:] + W3[1:]
              + S6[:2] + ["s7_oprf_key_from_seed", "s8_mask_response", "s8_unmask_response"] + S9U + S9W + S10 + ["s11_derive_3dh_keys"] + LEMMAS,
     assumptions=["each of the eight public steps equals the RFC 9807 step from an arbitrary valid state (S2-S4, S1, W1-W3 with the crate-private units replaced by references proved equal in S6-S11); honest agreement of the composed reference is lemma R1; the algebra of the 20 real suites (DH commutes, unblinding inverts blinding) is not encoded",
@@ -374,7 +373,7 @@ PROPERTIES["C03"] = dict(
     thorough=["lemma_hmac_eq", "d_all_cred_fin", "d_all_server_login"],
     assumptions=["the server accepts exactly HMAC(km3, transcript hash) of its own pending state — proved for every 24-byte state and every 8-byte finalization; that another session's MAC differs is unforgeability of HMAC (not decided)"])
 PROPERTIES["C04"] = dict(
-    quick=SELF + ["w3e_login_finish_early", "d_cred_resp", "s9_open_raw_exact"],
+    quick=SELF + ["w3e_login_finish_early", "d_cred_resp", "s9_open_raw_exact", "g2_x25519_pk_roundtrip"],
     thorough=S10[1:] + ["s8_unmask_response"] + W3 + W3Q + S9W[4:] + ["lemma_spec_prefix_injective"],
     assumptions=[CRYPTO_NOTE])
 PROPERTIES["C05"] = dict(
@@ -396,14 +395,14 @@ PROPERTIES["C09"] = dict(
     assumptions=["conformance is to the reference model harness/incrate/spec.rs, typed in from RFC 9807 / RFC 9497 (labels, layouts, formulas), over the model suite; SHA-2 and curve arithmetic of the 20 real suites are pinned only by the repository's own RFC vectors"])
 PROPERTIES["C10"] = dict(
     quick=SELF + D_QUICK + ["g1_x25519_sk_decode", "g1_x25519_sk_lengths", "g2_x25519_pk_roundtrip", "g2_x25519_pk_no_alias", "g2_x25519_pk_no_alias_canonical",
-                            "g4_ristretto_lengths_identity", "g4_ristretto_sk_decode", "g4_ristretto_sk_boundaries", "g5_p256_sk_decode", "g6_p256_pk_unknown_tags", "g6_p256_pk_bad_tags"],
-    thorough=D_ALL + ["g6_p256_pk_tag_cases"] + DS_ALL + DR_ALL + DS_SHORT,
+                            "g4_ristretto_lengths_identity", "g4_ristretto_sk_decode", "g4_ristretto_sk_boundaries", "g5_p256_sk_decode", "g5_p256_sk_lengths", "g5_p384_sk_lengths", "g6_p256_pk_unknown_tags", "g6_p256_pk_bad_tags"],
+    thorough=["g6_p256_oprf_elem_compact_tag", "g6_p256_oprf_elem_other_tags", "gs_x25519_pk_serde", "gs_ristretto_pk_identity"] + D_ALL + ["g6_p256_pk_tag_cases"] + DS_ALL + DR_ALL + DS_SHORT,
     assumptions=["opaque-ke's own slicing/length logic is decided on the model suite for all 11 decoders; the real groups' byte-level decoders are decided for Curve25519 (all inputs), ristretto255 scalars, P-256 scalars and tag bytes; point decompression (off-curve x, non-canonical ristretto encodings) needs a symbolic field square root and is not decided"])
 PROPERTIES["C11"] = dict(
     quick=SELF + ["d_reg_req", "d_reg_resp", "d_reg_upload", "d_cred_req", "d_cred_resp", "d_setup", "d_client_reg", "d_client_login",
                   "g1_x25519_sk_decode", "g2_x25519_pk_small_order", "g4_ristretto_sk_decode", "g4_ristretto_sk_boundaries", "g5_p256_sk_decode", "g6_p256_pk_unknown_tags", "g6_p256_pk_bad_tags",
-                  "ds_keys", "ds_reg_req", "ds_reg_resp", "ds_setup", "ds_client_reg", "ds_cred_req", "ds_reg_upload"],
-    thorough=["g6_p256_pk_tag_cases", "d_all_reg_resp", "d_all_client_reg", "d_all_setup", "ds_server_registration", "ds_cred_resp", "ds_client_login", "ds_cred_fin", "ds_server_login"],
+                  "ds_keys", "ds_reg_req", "ds_reg_resp", "ds_setup", "ds_client_reg", "ds_cred_req", "ds_reg_upload", "gs_x25519_pk_serde", "gs_x25519_sk_serde", "gs_ristretto_sk_serde"],
+    thorough=["g6_p256_pk_tag_cases", "g6_p256_oprf_elem_other_tags", "gs_ristretto_pk_identity", "d_all_reg_resp", "d_all_client_reg", "d_all_setup", "ds_server_registration", "ds_cred_resp", "ds_client_login", "ds_cred_fin", "ds_server_login"],
     assumptions=["serde paths: the crate's Serialize/Deserialize implementations (derive-generated visitors, keypair.rs, voprf's element/scalar adapters, generic-array's tuple impl) are executed symbolically under the harness-defined byte-verbatim format `flat` (byte-identical to bincode 1.x for these fixed-size types); bincode and serde_json themselves (third-party, heap-allocating parsers; self-describing map access by field name) are not encoded",
                  "off-curve / non-canonical point encodings need symbolic decompression: not decided"])
 PROPERTIES["C12"] = dict(
@@ -425,7 +424,7 @@ PROPERTIES["C15"] = dict(
     thorough=W1[1:] + W3 + W3Q,
     assumptions=["the Argon2 adapter (ksf.rs:38-47) is memory-hard by construction and is not encoded; the model KSF records its calls, argument and instance and returns a symbolic output or an error"])
 PROPERTIES["C16"] = dict(
-    quick=SELF + ["s9_seal_raw", "s9_open_raw_exact", "s9w_seal_client_only", "s9w_seal_server_only", "w1_client_reg_finish_default_ids"],
+    quick=SELF + ["s9_seal_raw", "s9_open_raw_exact", "s9w_seal_client_only", "s9w_seal_server_only", "w1_client_reg_finish_default_ids", "s2_client_reg_start_pw2", "s6_pwd_key_len3"],
     thorough=S9W + W1[1:] + W3 + W3Q,
     assumptions=[CRYPTO_NOTE, "'no secret appears verbatim in any message' is covered only in the sense that every message byte is a specified function (C09) none of which is the export key, session key or password"])
 PROPERTIES["C17"] = dict(
@@ -437,6 +436,6 @@ PROPERTIES["C18"] = dict(
     thorough=["s11_derive_3dh_keys_external", "w2_server_login_start_external_key_unregistered", "d_all_setup_xk"],
     assumptions=["the external key is the model MSecretKey (2-byte handle, call log, failure at the n-th call with a caller-chosen code)"])
 PROPERTIES["C19"] = dict(
-    quick=SELF + ["g1_x25519_sk_decode", "g1_x25519_sk_lengths", "g3_x25519_derive", "g2_x25519_pk_roundtrip", "g5_p256_sk_decode", "g4_ristretto_lengths_identity", "g4_ristretto_sk_decode", "g4_ristretto_sk_boundaries", "s14_derive_auth_keypair_loop"],
+    quick=SELF + ["g1_x25519_sk_decode", "g1_x25519_sk_lengths", "g3_x25519_derive", "g2_x25519_pk_roundtrip", "g5_p256_sk_decode", "g4_ristretto_lengths_identity", "g4_ristretto_sk_decode", "g4_ristretto_sk_boundaries", "s14_derive_auth_keypair_loop", "g5_p256_sk_lengths", "g5_p384_sk_lengths"],
     thorough=["g6_p256_pk_tag_cases", "s9_keys_internal"],
     assumptions=["Diffie-Hellman symmetry and public-key consistency on the five real groups need >= 255 dependent symbolic field multiplications: outside reach, they stay with the repository's proptests; decided: key encodings round-trip, seeded derivation for Curve25519 == RFC 7748 clamp on all 2^256 seeds, scalar range checks"])
